@@ -7,7 +7,7 @@ The serialisation contract the wire units ASSUME for x690 objects,
 verified FROM THE SITE-PACKAGES SOURCE of `X690Type.__bytes__` (with the `raw_bytes` property, `TypeInfo.__bytes__` and the
 class's own `encode_raw` executed from their ASTs) for every class registered with x690 in this tree, one unit per class.
 Below it only `encode_length` (verified in EncodeLength), the `Integer` content octets (verified in IntegerCodec) and the
-OBJECT IDENTIFIER content octets (assumed; stand-in `wire-emit`) are used by contract; nested `bytes(child)` calls inside a
+OBJECT IDENTIFIER content octets (sub-identifier codec verified in OidSubidCodec; first-two-arcs packing assumed; stand-in `wire-emit`) are used by contract; nested `bytes(child)` calls inside a
 constructed value are used by this same contract (modular).
 """
 import z3
